@@ -9,6 +9,7 @@ verus! {
 //@ include prelude/numeric_id.vs
 //@ idtype Value TableId CounterId ExternalFunctionId FunctionId
 //@ include prelude/bridge_exec.vs
+broadcast use {nid::ax_id_eq, nid::ax_id_cmp, nid::ax_id_obeys_eq, nid::ax_id_obeys_cmp, nid::ax_id_obeys_partial_cmp, nid::ax_id_partial_cmp};
 //@ include units/uf/spec.vs
 
 // ---- trusted environment specific to this unit --------------------------------------------------
